@@ -127,6 +127,33 @@ func caseC20(c *Ctx) {
 	registered := 0
 	held := []ecs.Query{}
 	steps := 150
+	if c.Case%8 == 0 && c.Case%16 == 0 {
+		// every resource type of a full registry present at the same time, then Reset
+		for len(keys) < limit {
+			keys = append(keys, fmt.Sprintf("F%d", 6300+len(keys)))
+		}
+		for _, k := range keys {
+			s.resRegister(k)
+		}
+		registered = len(keys)
+		for id := range s.ResIDs {
+			v := reflect.New(TypeOfKey(s.ResKeys[id])).Interface()
+			if acc, gen := resAccs[s.ResKeys[id]]; gen && id%2 == 0 {
+				acc.add(s.W, v)
+			} else {
+				s.W.Resources().Add(s.ResIDs[id], v)
+			}
+			s.Res.Present[id] = v
+			s.keep = append(s.keep, v)
+		}
+		if checkResources(s) {
+			s.Do(&Op{K: "Reset"})
+			if !s.Failed() {
+				checkResources(s)
+			}
+		}
+		s.Cov.N["full_registry_all_present_then_reset"]++
+	}
 	for i := 0; i < steps && !s.Failed(); i++ {
 		switch c.R.Weighted([]int{3, 6, 4, 5, 1, 2, 2, 2}) {
 		case 0: // register the next resource type
